@@ -321,7 +321,7 @@ def run(work, tier, replay=None):
     # real handlers and random schedules of the real handlers validated against it (a run that ends in a deadlock
     # of the real handlers is a violation; a specification-only deadlock is a lead)
     import relayconc_check
-    rc_ = relayconc_check.stage(work, tier, work.seed, variants=(False, True), witnesses=False)
+    rc_ = relayconc_check.stage(work, tier, work.seed, variants=(False, True, "odal"), witnesses=False)
     for f in rc_["fails"]:
         if "C09" not in relayconc_check.OWNER.get(f["inv"], []):
             continue
